@@ -1,11 +1,68 @@
+/-
+  Sipsp.Proofs.ShiftParams — position independence (property C11) of SkipQuoted, ParseTokenParam, ParseAllURIParams and
+  ParseAllURIHdrs, and the C17 decomposition under every chunk schedule (C17 + C02).
+
+  Setting as in Sipsp.Proofs.Shift: the text `t` is parsed at its own start (buffer `t`, offset `o`) and behind
+  `k = pre.size` arbitrary bytes (buffer `pre ++ t`, offset `k + o`), with `pre.size + t.size ≤ 65535`.
+
+  THE TRANSLATION `shTp k p` of a token-parameter object (state and panic flag unchanged; `shTp k {} = {}`):
+  * `all`, `name`: moved by `k` (`shF`) in every state in which the parser has set them (`spTpLive`: all states but the
+    initial and the error state).  This cannot be a "zero = unset" convention: a name that starts at buffer offset 0
+    and has not been extended yet is the field ⟨0, 0⟩ (`PField.set i i` is an EMPTY field at a real position).  In the
+    initial / error state the two fields are dead values: the zero field stays zero, anything else is moved (`shO`).
+  * `val`: `Offs = 0` means "no value" (`shP`): unchanged then, moved by `k` otherwise, in every state.  This is
+    unambiguous because a value never starts at buffer offset 0 (invariant `SpTpPos`: in the state "find value" the
+    position is ≥ 1; in the states "value" / "quoted value" `val.Offs ≥ 1`), kept by every continuing step
+    (`spTpStep_pos`) and re-established at every MoreBytes exit.  A stale value of the previous parameter (the object
+    returned with MoreValues keeps its fields when it is passed in again) is translated the same way on both sides.
+  `shPl k` / `shHl k` translate every slot and the scratch element of a list with `shTp k`; `n`, the type mask, the
+  parameter types, the panic flag and the capacity are unchanged.
+
+  PROVED (every flag combination incl. `POptInputEndF` / `POptTokSpTermF`, all 11 states, no bound but the 16-bit limit):
+  * `skipQuoted_shift`.
+  * `spTpStep_shift` (every loop step commutes with the translation; finishing steps up to `spTpNz`),
+    `spTpEOH_shift`, `spTpMoreBytes_shift`, `spTpLWS_shift`; `spRunLoop_shiftN2` (generic loop theorem for two
+    machines: the token-parameter machine carries the start offset of the call, which is moved too).
+  * EXPORT C11 `parseTokenParam_shiftN`: for every legitimate object (`SpTpEntry o p` = `SrTpIn o p` of SafeRest +
+    `SpTpPos o p`; `SpTpEntry.new`: new objects at every offset) the call on `pre ++ t` at `k + o` from `shTp k p`
+    returns offset + k, the same verdict and the translated object — compared up to `spTpNz`, which blanks `all` /
+    `name` of an object in the ERROR state.
+  * EXPORT C11 `parseTokenParam_shift` (plain equation `= shRes k (shTp k) (…)` after OK / MoreValues / end of header /
+    MoreBytes, object passed in not in the error state), `parseTokenParam_shift_of_state` (… whenever the run on `t`
+    does not end in the error state), `parseTokenParam_shift_new`, `parseTokenParam_shift_any` (every verdict: offset
+    + k, same verdict, state, panic flag; value moved), `parseTokenParam_good_state`, `parseTokenParam_shiftEntry`
+    (after MoreBytes the returned object is legitimate at the returned offset: the theorems apply to resumed calls).
+  * EXPORT C11 `parseAllURIParams_shift`, `parseAllURIHdrs_shift` (+ `uriParamsLoop_shift`, `uriHdrsLoop_shift`): plain
+    equations, every verdict (on an error the wrapper zeroes the element in progress), for every legitimate list
+    (`SpPlEntry` / `SpHlEntry`: fields end at or before the offset, unused slots zero, element in progress legitimate
+    and not failed); `…_shift_new` (new lists of any capacity), `…_shift_reset` (reset lists, `shPl_reset`),
+    `…_shiftEntry` (suspended lists: legitimacy re-established after MoreBytes); `shPl_scalars`, `shPl_get`,
+    `shUp_meaning`, `shHl_scalars`, `shHl_get`, `shTp_name_get?` (the moved name denotes the same bytes, hence the
+    same parameter type).
+  * EXPORT C17 `tokparam_any_schedule`, `gparam_any_schedule`, `uri_param_list_any_schedule`,
+    `uri_hdr_list_any_schedule`: for every growing schedule of prefixes whose last buffer `B` holds the parameter /
+    the list of the grammar (`GParam` / `GList`), the chain of resumed calls returns the C17 decomposition of ONE call
+    on `B` (via `spOneShotRun_stable`: one-shot results are stable under appended bytes).  Without `POptInputEndF`
+    (the hypothesis of the C02 schedule theorems).
+
+  NOT proved / not true:
+  * the plain equation is FALSE after an error verdict for any translation that is a function of the returned object
+    alone: `a\x01` and `\x01` at offset 0 both return state error with `all = name = ⟨0,0⟩`, while behind `xyz` the
+    first returns `all = name = ⟨3,0⟩` (name started, not yet extended) and the second ⟨0,0⟩ (tests below).  Go callers
+    do not read the fields after an error and the list wrappers zero the element.
+  * objects that violate `SpTpPos` (hand-made: e.g. state "value" with `val.Offs = 0`) are not covered.
+-/
 import Sipsp.Proofs.ShiftNA
 import Sipsp.Proofs.SafeRest
+import Sipsp.Proofs.ParamSpec
+
 namespace Sipsp
 
 def spTpLive : TPState → Bool
   | .init | .err => false
   | _ => true
 
+/-- [EXPORT C11] the token-parameter object moved by `k` (see the file header) -/
 def shTp (k : Nat) (p : PTokParam) : PTokParam :=
   { p with all := if spTpLive p.state then shF k p.all else shO k p.all,
            name := if spTpLive p.state then shF k p.name else shO k p.name,
@@ -205,7 +262,7 @@ theorem spSqStep_shift (pre t : Buf) (i : Nat) (c : UInt8) :
         · rfl
         · simp only [shStep, id]; rw [Nat.add_assoc]
 
-/-- **SkipQuoted is position independent** -/
+/-- [EXPORT C11] **SkipQuoted is position independent** -/
 theorem skipQuoted_shift (pre t : Buf) (i : Nat) :
     skipQuoted (pre ++ t) (pre.size + i) = (pre.size + (skipQuoted t i).1, (skipQuoted t i).2) := by
   unfold skipQuoted
@@ -509,6 +566,7 @@ def SpTpEntry (o : Nat) (p : PTokParam) : Prop := SrTpIn o p ∧ SpTpPos o p
 
 theorem SpTpEntry.new (o : Nat) : SpTpEntry o {} := ⟨SrTpIn.new o, SpTpPos.new o⟩
 
+/-- [EXPORT C11] **ParseTokenParam is position independent**, every verdict: offset + k, same verdict, translated object (after an error verdict `all` / `name` are not compared: `spTpNz`) -/
 theorem parseTokenParam_shiftN (pre t : Buf) (o : Nat) (p : PTokParam) (flags : Nat)
     (hfit : pre.size + t.size ≤ 65535) (ho : o ≤ t.size) (hE : SpTpEntry o p) :
     resN spTpNz (parseTokenParam (pre ++ t) (pre.size + o) (shTp pre.size p) flags) =
@@ -542,7 +600,7 @@ theorem spNotErr_ne {s : TPState} (h : spNotErr s = true) : s ≠ .err := by
 theorem spNotErr_of_ne {s : TPState} (h : s ≠ .err) : spNotErr s = true := by
   cases s <;> first | rfl | exact absurd rfl h
 
-/-- after OK / MoreValues / end of header / MoreBytes the returned object is not in the error state (given that the
+/-- [EXPORT C11] after OK / MoreValues / end of header / MoreBytes the returned object is not in the error state (given that the
     object passed in was not) -/
 theorem parseTokenParam_good_state (b : Buf) (o : Nat) (p : PTokParam) (flags : Nat) (hs : p.state ≠ .err)
     (hg : spGoodV (parseTokenParam b o p flags).2.1 = true) : (parseTokenParam b o p flags).2.2.state ≠ .err := by
@@ -558,7 +616,7 @@ theorem parseTokenParam_good_state (b : Buf) (o : Nat) (p : PTokParam) (flags : 
   · rw [hg] at h; cases h
   · exact spNotErr_ne h
 
-/-- the plain form: whenever the run on `t` does not end in the error state -/
+/-- [EXPORT C11] the plain form: whenever the run on `t` does not end in the error state -/
 theorem parseTokenParam_shift_of_state (pre t : Buf) (o : Nat) (p : PTokParam) (flags : Nat)
     (hfit : pre.size + t.size ≤ 65535) (ho : o ≤ t.size) (hE : SpTpEntry o p)
     (hne : (parseTokenParam t o p flags).2.2.state ≠ .err) :
@@ -578,7 +636,7 @@ theorem parseTokenParam_shift_of_state (pre t : Buf) (o : Nat) (p : PTokParam) (
   rw [spTpNz_id hs2] at h3
   simp only [shRes, h1, h2, h3]
 
-/-- **ParseTokenParam is position independent** (every flag combination, every legitimate object): after OK /
+/-- [EXPORT C11] **ParseTokenParam is position independent** (every flag combination, every legitimate object): after OK /
     MoreValues / end of header / MoreBytes the call behind `pre` returns the offset moved by `k = pre.size`, the same
     verdict and the translated object -/
 theorem parseTokenParam_shift (pre t : Buf) (o : Nat) (p : PTokParam) (flags : Nat)
@@ -588,14 +646,14 @@ theorem parseTokenParam_shift (pre t : Buf) (o : Nat) (p : PTokParam) (flags : N
       shRes pre.size (shTp pre.size) (parseTokenParam t o p flags) :=
   parseTokenParam_shift_of_state pre t o p flags hfit ho hE (parseTokenParam_good_state t o p flags hs hg)
 
-/-- … from a new object, at any start offset -/
+/-- [EXPORT C11] … from a new object, at any start offset -/
 theorem parseTokenParam_shift_new (pre t : Buf) (o : Nat) (flags : Nat)
     (hfit : pre.size + t.size ≤ 65535) (ho : o ≤ t.size) (hg : spGoodV (parseTokenParam t o {} flags).2.1 = true) :
     parseTokenParam (pre ++ t) (pre.size + o) {} flags =
       shRes pre.size (shTp pre.size) (parseTokenParam t o {} flags) :=
   parseTokenParam_shift pre t o {} flags hfit ho (SpTpEntry.new o) (fun h => nomatch h) hg
 
-/-- every verdict (errors included): offset moved by `k`, same verdict, same state and panic flag, value field moved
+/-- [EXPORT C11] every verdict (errors included): offset moved by `k`, same verdict, same state and panic flag, value field moved
     unless absent; after an error only `all` / `name` are not compared -/
 theorem parseTokenParam_shift_any (pre t : Buf) (o : Nat) (p : PTokParam) (flags : Nat)
     (hfit : pre.size + t.size ≤ 65535) (ho : o ≤ t.size) (hE : SpTpEntry o p) :
@@ -624,7 +682,7 @@ theorem parseTokenParam_shift_any (pre t : Buf) (o : Nat) (p : PTokParam) (flags
     have e : ∀ q : PTokParam, (spTpNz q).val = q.val := by intro q; unfold spTpNz; split <;> rfl
     rw [e, e] at this; exact this
 
-/-- after MoreBytes the returned object is a legitimate argument at the returned offset (so the theorems apply to
+/-- [EXPORT C11] after MoreBytes the returned object is a legitimate argument at the returned offset (so the theorems apply to
     the resumed call as well) -/
 theorem parseTokenParam_shiftEntry (b : Buf) (o : Nat) (p : PTokParam) (flags : Nat) (hfit : b.size ≤ 65535)
     (ho : o ≤ b.size) (hE : SpTpEntry o p) (hm : (parseTokenParam b o p flags).2.1 = .moreBytes) :
@@ -646,7 +704,7 @@ theorem parseTokenParam_shiftEntry (b : Buf) (o : Nat) (p : PTokParam) (flags : 
 
 def shUp (k : Nat) (u : URIParam) : URIParam := { u with param := shTp k u.param }
 
-/-- **the URI-parameter list moved by `k`**: every slot and the scratch element moved with `shTp k`; count, type
+/-- [EXPORT C11] **the URI-parameter list moved by `k`**: every slot and the scratch element moved with `shTp k`; count, type
     mask and panic flag unchanged -/
 def shPl (k : Nat) (l : URIParamsLst) : URIParamsLst :=
   { l with params := l.params.map (shUp k), tmp := shUp k l.tmp }
@@ -698,7 +756,7 @@ structure SpPlEntry (o : Nat) (l : URIParamsLst) : Prop where
   pos : SpTpPos o l.cur.param
   ne : l.cur.param.state ≠ .err
 
-/-- the name of a translated object denotes the same bytes -/
+/-- [EXPORT C11] the name of a translated object denotes the same bytes -/
 theorem shTp_name_get? (pre t : Buf) (p : PTokParam) (hin : p.name.inside t.size) (hfit : pre.size + t.size ≤ 65535) :
     (shTp pre.size p).name.get? (pre ++ t) = p.name.get? t := by
   show (if spTpLive p.state then shF pre.size p.name else shO pre.size p.name).get? (pre ++ t) = _
@@ -706,6 +764,7 @@ theorem shTp_name_get? (pre t : Buf) (p : PTokParam) (hin : p.name.inside t.size
   · exact get?_shiftF pre t p.name hin hfit
   · exact get?_shO pre t p.name hin hfit
 
+/-- [EXPORT C11] the loop of ParseAllURIParams (any option word, any value counter) commutes with the shift -/
 theorem uriParamsLoop_shift (pre t : Buf) (flags : Nat) (hfit : pre.size + t.size ≤ 65535) (offs : Nat)
     (l : URIParamsLst) (vNo : Nat) (ho : offs ≤ t.size) (hE : SpPlEntry offs l) :
     uriParamsLoop (pre ++ t) (pre.size + offs) (shPl pre.size l) flags vNo =
@@ -772,7 +831,7 @@ theorem uriParamsLoop_shift (pre t : Buf) (flags : Nat) (hfit : pre.size + t.siz
       rw [this]; rfl
 
 
-/-- **ParseAllURIParams is position independent** (every flag combination, any capacity, every legitimate list) -/
+/-- [EXPORT C11] **ParseAllURIParams is position independent** (every flag combination, any capacity, every legitimate list) -/
 theorem parseAllURIParams_shift (pre t : Buf) (offs : Nat) (l : URIParamsLst) (flags : Nat)
     (hfit : pre.size + t.size ≤ 65535) (ho : offs ≤ t.size) (hE : SpPlEntry offs l) :
     parseAllURIParams (pre ++ t) (pre.size + offs) (shPl pre.size l) flags =
@@ -788,7 +847,7 @@ theorem spPl_cur_new (m : Nat) : ({ params := Array.replicate m {} } : URIParams
 theorem SpPlEntry.new (o m : Nat) : SpPlEntry o ({ params := Array.replicate m {} } : URIParamsLst) :=
   ⟨srPlIn_new o m, (plOK_new #[] m).2, by rw [spPl_cur_new]; exact SpTpPos.new o, by rw [spPl_cur_new]; decide⟩
 
-/-- … from a new list of any capacity -/
+/-- [EXPORT C11] … from a new list of any capacity -/
 theorem parseAllURIParams_shift_new (pre t : Buf) (offs m : Nat) (flags : Nat)
     (hfit : pre.size + t.size ≤ 65535) (ho : offs ≤ t.size) :
     parseAllURIParams (pre ++ t) (pre.size + offs) { params := Array.replicate m {} } flags =
@@ -834,7 +893,7 @@ theorem shPl_reset (k : Nat) {l : URIParamsLst} (h : plClean l) : shPl k l.reset
   show ({ l.reset with params := l.reset.params.map (shUp k), tmp := shUp k l.reset.tmp } : URIParamsLst) = l.reset
   rw [hp]; rfl
 
-/-- … from a reset list (whatever it held before, e.g. fields of another buffer) -/
+/-- [EXPORT C11] … from a reset list (whatever it held before, e.g. fields of another buffer) -/
 theorem parseAllURIParams_shift_reset (pre t : Buf) (offs : Nat) (l : URIParamsLst) (flags : Nat)
     (hfit : pre.size + t.size ≤ 65535) (ho : offs ≤ t.size) (hc : plClean l) :
     parseAllURIParams (pre ++ t) (pre.size + offs) l.reset flags =
@@ -842,7 +901,7 @@ theorem parseAllURIParams_shift_reset (pre t : Buf) (offs : Nat) (l : URIParamsL
   have := parseAllURIParams_shift pre t offs _ flags hfit ho (SpPlEntry.reset offs hc)
   rw [shPl_reset _ hc] at this; exact this
 
-/-- after MoreBytes the returned list is a legitimate argument at the returned offset -/
+/-- [EXPORT C11] after MoreBytes the returned list is a legitimate argument at the returned offset -/
 theorem uriParamsLoop_shiftEntry (b : Buf) (flags : Nat) (hfit : b.size ≤ 65535) (offs : Nat) (l : URIParamsLst)
     (vNo : Nat) (ho : offs ≤ b.size) (hE : SpPlEntry offs l)
     (hm : (uriParamsLoop b offs l flags vNo).2.2.1 = .moreBytes) :
@@ -880,12 +939,13 @@ theorem uriParamsLoop_shiftEntry (b : Buf) (flags : Nat) (hfit : b.size ≤ 6553
     · subst he; rw [uriParamsLoop_eq_last hp (Or.inr rfl) hnm] at hm; cases hm
     · rw [uriParamsLoop_err hp hk hv he hmb] at hm; exact absurd hm hmb
 
+/-- [EXPORT C11] after MoreBytes the list returned by ParseAllURIParams is a legitimate argument at the returned offset -/
 theorem parseAllURIParams_shiftEntry (b : Buf) (offs : Nat) (l : URIParamsLst) (flags : Nat) (hfit : b.size ≤ 65535)
     (ho : offs ≤ b.size) (hE : SpPlEntry offs l) (hm : (parseAllURIParams b offs l flags).2.2.1 = .moreBytes) :
     SpPlEntry (parseAllURIParams b offs l flags).1 (parseAllURIParams b offs l flags).2.2.2 :=
   uriParamsLoop_shiftEntry b _ hfit offs l 0 ho hE hm
 
-/-- what a caller reads from the moved list: counts, type mask, panic flag, capacity are identical -/
+/-- [EXPORT C11] what a caller reads from the moved list: counts, type mask, panic flag, capacity are identical -/
 theorem shPl_scalars (k : Nat) (l : URIParamsLst) :
     (shPl k l).n = l.n ∧ (shPl k l).types = l.types ∧ (shPl k l).pnc = l.pnc ∧
     (shPl k l).params.size = l.params.size ∧ (shPl k l).pNo = l.pNo ∧ (shPl k l).more = l.more ∧
@@ -894,13 +954,13 @@ theorem shPl_scalars (k : Nat) (l : URIParamsLst) :
   · unfold URIParamsLst.pNo shPl; simp only [Array.size_map]
   · unfold URIParamsLst.more shPl; simp only [Array.size_map]
 
-/-- slot `j` of the moved list is the moved slot `j` (same parameter type) -/
+/-- [EXPORT C11] slot `j` of the moved list is the moved slot `j` (same parameter type) -/
 theorem shPl_get (k : Nat) (l : URIParamsLst) (j : Nat) :
     (shPl k l).params[j]? = (l.params[j]?).map (shUp k) := by
   show (l.params.map (shUp k))[j]? = _
   rw [Array.getElem?_map]
 
-/-- what the translation does to a stored element: the parameter type is unchanged; in every state in which the
+/-- [EXPORT C11] what the translation does to a stored element: the parameter type is unchanged; in every state in which the
     parser has set them (`spTpLive`: all but the initial and the error state) `all` and `name` are moved by `k`; the
     value is moved unless absent (`Offs = 0`); state and panic flag are unchanged -/
 theorem shUp_meaning (k : Nat) (u : URIParam) (hl : spTpLive u.param.state = true) :
@@ -917,7 +977,7 @@ theorem shUp_meaning (k : Nat) (u : URIParam) (hl : spTpLive u.param.state = tru
 
 /-! ### the URI header list -/
 
-/-- **the URI-header list moved by `k`**: every slot and the scratch element moved with `shTp k`; count unchanged -/
+/-- [EXPORT C11] **the URI-header list moved by `k`**: every slot and the scratch element moved with `shTp k`; count unchanged -/
 def shHl (k : Nat) (l : URIHdrsLst) : URIHdrsLst :=
   { l with hdrs := l.hdrs.map (shTp k), tmp := shTp k l.tmp }
 
@@ -961,6 +1021,7 @@ structure SpHlEntry (o : Nat) (l : URIHdrsLst) : Prop where
   pos : SpTpPos o l.cur
   ne : l.cur.state ≠ .err
 
+/-- [EXPORT C11] the loop of ParseAllURIHdrs commutes with the shift -/
 theorem uriHdrsLoop_shift (pre t : Buf) (flags : Nat) (hfit : pre.size + t.size ≤ 65535) (offs : Nat)
     (l : URIHdrsLst) (vNo : Nat) (ho : offs ≤ t.size) (hE : SpHlEntry offs l) :
     uriHdrsLoop (pre ++ t) (pre.size + offs) (shHl pre.size l) flags vNo =
@@ -1019,7 +1080,7 @@ theorem uriHdrsLoop_shift (pre t : Buf) (flags : Nat) (hfit : pre.size + t.size 
       rw [shTp_new] at this
       rw [this]; rfl
 
-/-- **ParseAllURIHdrs is position independent** (every flag combination, any capacity, every legitimate list) -/
+/-- [EXPORT C11] **ParseAllURIHdrs is position independent** (every flag combination, any capacity, every legitimate list) -/
 theorem parseAllURIHdrs_shift (pre t : Buf) (offs : Nat) (l : URIHdrsLst) (flags : Nat)
     (hfit : pre.size + t.size ≤ 65535) (ho : offs ≤ t.size) (hE : SpHlEntry offs l) :
     parseAllURIHdrs (pre ++ t) (pre.size + offs) (shHl pre.size l) flags =
@@ -1035,7 +1096,7 @@ theorem spHl_cur_new (m : Nat) : ({ hdrs := Array.replicate m {} } : URIHdrsLst)
 theorem SpHlEntry.new (o m : Nat) : SpHlEntry o ({ hdrs := Array.replicate m {} } : URIHdrsLst) :=
   ⟨srHlIn_new o m, hlClean_new m, by rw [spHl_cur_new]; exact SpTpPos.new o, by rw [spHl_cur_new]; decide⟩
 
-/-- … from a new list of any capacity -/
+/-- [EXPORT C11] … from a new list of any capacity -/
 theorem parseAllURIHdrs_shift_new (pre t : Buf) (offs m : Nat) (flags : Nat)
     (hfit : pre.size + t.size ≤ 65535) (ho : offs ≤ t.size) :
     parseAllURIHdrs (pre ++ t) (pre.size + offs) { hdrs := Array.replicate m {} } flags =
@@ -1069,7 +1130,7 @@ theorem shHl_reset (k : Nat) {l : URIHdrsLst} (h : hlClean l) : shHl k l.reset =
   show ({ l.reset with hdrs := l.reset.hdrs.map (shTp k), tmp := shTp k l.reset.tmp } : URIHdrsLst) = l.reset
   rw [hp]; rfl
 
-/-- … from a reset list -/
+/-- [EXPORT C11] … from a reset list -/
 theorem parseAllURIHdrs_shift_reset (pre t : Buf) (offs : Nat) (l : URIHdrsLst) (flags : Nat)
     (hfit : pre.size + t.size ≤ 65535) (ho : offs ≤ t.size) (hc : hlClean l) :
     parseAllURIHdrs (pre ++ t) (pre.size + offs) l.reset flags =
@@ -1077,7 +1138,7 @@ theorem parseAllURIHdrs_shift_reset (pre t : Buf) (offs : Nat) (l : URIHdrsLst) 
   have := parseAllURIHdrs_shift pre t offs _ flags hfit ho (SpHlEntry.reset offs hc)
   rw [shHl_reset _ hc] at this; exact this
 
-/-- after MoreBytes the returned list is a legitimate argument at the returned offset -/
+/-- [EXPORT C11] after MoreBytes the returned list is a legitimate argument at the returned offset -/
 theorem uriHdrsLoop_shiftEntry (b : Buf) (flags : Nat) (hfit : b.size ≤ 65535) (offs : Nat) (l : URIHdrsLst)
     (vNo : Nat) (ho : offs ≤ b.size) (hE : SpHlEntry offs l)
     (hm : (uriHdrsLoop b offs l flags vNo).2.2.1 = .moreBytes) :
@@ -1114,11 +1175,13 @@ theorem uriHdrsLoop_shiftEntry (b : Buf) (flags : Nat) (hfit : b.size ≤ 65535)
     · subst he; rw [uriHdrsLoop_eq_last hp (Or.inr rfl)] at hm; cases hm
     · rw [uriHdrsLoop_err hp hk hv he hmb] at hm; exact absurd hm hmb
 
+/-- [EXPORT C11] after MoreBytes the list returned by ParseAllURIHdrs is a legitimate argument at the returned offset -/
 theorem parseAllURIHdrs_shiftEntry (b : Buf) (offs : Nat) (l : URIHdrsLst) (flags : Nat) (hfit : b.size ≤ 65535)
     (ho : offs ≤ b.size) (hE : SpHlEntry offs l) (hm : (parseAllURIHdrs b offs l flags).2.2.1 = .moreBytes) :
     SpHlEntry (parseAllURIHdrs b offs l flags).1 (parseAllURIHdrs b offs l flags).2.2.2 :=
   uriHdrsLoop_shiftEntry b _ hfit offs l 0 ho hE hm
 
+/-- [EXPORT C11] counts and capacity of the moved header list are identical -/
 theorem shHl_scalars (k : Nat) (l : URIHdrsLst) :
     (shHl k l).n = l.n ∧ (shHl k l).hdrs.size = l.hdrs.size ∧ (shHl k l).hNo = l.hNo ∧
     (shHl k l).more = l.more ∧ (shHl k l).isEmpty = l.isEmpty := by
@@ -1126,9 +1189,244 @@ theorem shHl_scalars (k : Nat) (l : URIHdrsLst) :
   · unfold URIHdrsLst.hNo shHl; simp only [Array.size_map]
   · unfold URIHdrsLst.more shHl; simp only [Array.size_map]
 
+/-- [EXPORT C11] slot `j` of the moved header list is the moved slot `j` -/
 theorem shHl_get (k : Nat) (l : URIHdrsLst) (j : Nat) :
     (shHl k l).hdrs[j]? = (l.hdrs[j]?).map (shTp k) := by
   show (l.hdrs.map (shTp k))[j]? = _
   rw [Array.getElem?_map]
+
+/-! ## EXPORT C17 — the decomposition of a parameter list holds for every chunk schedule -/
+
+theorem spGrowing_mem {b : Buf} {rest : List Buf} (hg : Growing (b :: rest)) : ∀ x ∈ rest, ∃ s, x = b ++ s := by
+  induction rest generalizing b with
+  | nil => intro x hx; cases hx
+  | cons b' r ih =>
+    intro x hx
+    obtain ⟨⟨s1, hs1⟩, hg'⟩ := hg
+    rcases List.mem_cons.mp hx with rfl | hx
+    · exact ⟨s1, hs1⟩
+    · obtain ⟨s2, hs2⟩ := ih hg' x hx
+      exact ⟨s1 ++ s2, by rw [hs2, hs1, Array.append_assoc]⟩
+
+theorem spGrowing_tail {b : Buf} {rest : List Buf} (hg : Growing (b :: rest)) : Growing rest := by
+  cases rest with
+  | nil => trivial
+  | cons b' r => exact hg.2
+
+/-- fresh one-shot calls on growing prefixes, for a parser whose definitive results do not change when bytes are
+    appended: the result is that of ONE call on the last buffer -/
+theorem spOneShotRun_stable {σ : Type} (P : Parser σ) (o : Nat) (st : σ) (l : List Buf) (hne : l ≠ [])
+    (hg : Growing l)
+    (hst : ∀ b ∈ l, ∀ s, (P b o st).2.1 ≠ .moreBytes → P (b ++ s) o st = P b o st) :
+    oneShotRun P o st l = P (l.getLast hne) o st := by
+  induction l with
+  | nil => exact absurd rfl hne
+  | cons b rest ih =>
+    cases rest with
+    | nil => rfl
+    | cons b' rest' =>
+      have hlast : (b :: b' :: rest').getLast hne = (b' :: rest').getLast (by simp) := List.getLast_cons (by simp)
+      have htail := ih (by simp) (spGrowing_tail hg) (fun x hx => hst x (List.mem_cons_of_mem _ hx))
+      by_cases hb : (P b o st).2.1 = .moreBytes
+      · rcases hp : P b o st with ⟨o1, e1, s1⟩
+        rw [hp] at hb
+        simp only at hb
+        subst hb
+        simp only [oneShotRun, hp]
+        rw [hlast]; exact htail
+      · obtain ⟨s, hs⟩ := spGrowing_mem hg _ (List.getLast_mem (l := b' :: rest') (by simp))
+        rw [hlast, hs, hst b List.mem_cons_self s hb]
+        rcases hp : P b o st with ⟨o1, e1, s1⟩
+        rw [hp] at hb
+        simp only [oneShotRun, hp]
+        cases e1 <;> first | rfl | exact absurd rfl hb
+
+
+theorem URIParamsLst.Fresh.sp_plOK {l : URIParamsLst} (h : l.Fresh) (b : Buf) : plOK b l := by
+  refine ⟨by rw [h.cur]; exact tpOK_new b, fun k h1 h2 => ?_, fun _ => h.2⟩
+  have : l.params[k]? = some l.params[k] := Array.getElem?_eq_getElem h2
+  rw [getElem!_def, this]
+  exact h.1 k _ (by omega) this
+
+theorem URIHdrsLst.Fresh.sp_hlClean {l : URIHdrsLst} (h : l.Fresh) : hlClean l := by
+  refine ⟨fun k h1 h2 => ?_, fun _ => h.2⟩
+  have : l.hdrs[k]? = some l.hdrs[k] := Array.getElem?_eq_getElem h2
+  rw [getElem!_def, this]
+  exact h.1 k _ (by omega) this
+
+theorem spGrowing_head_le {bs : List Buf} (hg : Growing bs) {o : Nat} (ho : ∀ b ∈ bs.head?, o ≤ b.size) :
+    ∀ b ∈ bs, o ≤ b.size := by
+  cases bs with
+  | nil => intro b hb; cases hb
+  | cons b0 rest =>
+    intro b hb
+    have h0 : o ≤ b0.size := ho b0 (by simp)
+    rcases List.mem_cons.mp hb with rfl | hb
+    · exact h0
+    · obtain ⟨s, hs⟩ := spGrowing_mem hg b hb
+      rw [hs, Array.size_append]; omega
+
+/-- [EXPORT C17] **C17 for every chunk schedule, ParseTokenParam**: whatever result ONE call on the complete buffer
+    `B` (the last of the growing prefixes) gives — in particular the decompositions of C17 (`param_token_value`,
+    `param_no_value`, `param_quoted_value`, …, the rejections) — is what the chain of resumed calls returns, however
+    the input was cut into pieces -/
+theorem tokparam_any_schedule (flags : Nat) (hf : hasFlag flags POptInputEndF = false) (o : Nat) (p : PTokParam)
+    (bs : List Buf) (hne : bs ≠ []) (hg : Growing bs) {o' : Nat} {e : Err} {p' : PTokParam}
+    (hr : parseTokenParam (bs.getLast hne) o p flags = (o', e, p')) :
+    resumeRun (fun b o p => parseTokenParam b o p flags) o p bs = (o', e, p') := by
+  rw [parseTokenParam_schedule flags hf o p bs hg,
+    spOneShotRun_stable (fun b o p => parseTokenParam b o p flags) o p bs hne hg
+      (fun b _ s hb => by
+        rcases hp : parseTokenParam b o p flags with ⟨o1, e1, p1⟩
+        simp only [hp] at hb ⊢
+        exact parseTokenParam_stable b s o p flags hf hp hb)]
+  exact hr
+
+/-- [EXPORT C17] … for a parameter of the grammar (`GParam`: no value / token / quoted / empty value, any white space and empty
+    items, any ending), from a new object -/
+theorem gparam_any_schedule (flags : Nat) (hf : hasFlag flags POptInputEndF = false) (o o' : Nat) (e : Err)
+    (tp : PTokParam) (bs : List Buf) (hne : bs ≠ []) (hg : Growing bs) (hfit : (bs.getLast hne).size ≤ 65535)
+    (H : GParam (bs.getLast hne) flags o o' e tp) :
+    resumeRun (fun b o p => parseTokenParam b o p flags) o {} bs = (o', e, tp) :=
+  tokparam_any_schedule flags hf o {} bs hne hg (H.parse hfit)
+
+/-- [EXPORT C17] **C17 for every chunk schedule, ParseAllURIParams**: the complete buffer `B` (last of the growing prefixes)
+    holds a parameter list of the grammar; the chain of resumed calls on ANY schedule of prefixes returns the offset
+    and verdict of the list end, the values counted over all calls add up to the number of parameters, parameter `i`
+    is stored with the type of its name in slot `n + i`, the type flags are accumulated -/
+theorem uri_param_list_any_schedule (flags o o' : Nat) (e : Err) (tps : List PTokParam) (bs : List Buf)
+    (hne : bs ≠ []) (hg : Growing bs) (hf : hasFlag flags POptInputEndF = false)
+    (hfit : (bs.getLast hne).size ≤ 65535) (ho : ∀ b ∈ bs.head?, o ≤ b.size)
+    (H : GList (bs.getLast hne) (flags ||| POptParamSemiSepF) o tps o' e) (l : URIParamsLst) (hl : l.Fresh) :
+    ∃ r, resumeRun (uriParamsParser flags) o (0, l) bs = (o', e, (tps.length, r)) ∧
+      r.n = l.n + tps.length ∧
+      r.types = tps.foldl (fun a tp => a ||| uriParamResolve (nameOf (bs.getLast hne) tp)) l.types ∧
+      r.params.size = l.params.size ∧ r.pnc = l.pnc ∧
+      (∀ i tp, tps[i]? = some tp → l.n + i < l.params.size →
+        r.params[l.n + i]? = some { param := tp, t := uriParamResolve (nameOf (bs.getLast hne) tp) }) ∧
+      (∀ j, j < l.n → r.params[j]? = l.params[j]?) := by
+  have hall := spGrowing_head_le hg ho
+  have hone : parseAllURIParams (bs.getLast hne) o l flags =
+      (o', tps.length, e, (tps.map (typed (bs.getLast hne))).foldl URIParamsLst.push l) := by
+    unfold parseAllURIParams
+    rw [uriParamsLoop_seq (H.paramSeq hfit) l 0 hl, Nat.zero_add, List.length_map]
+  refine ⟨(tps.map (typed (bs.getLast hne))).foldl URIParamsLst.push l, ?_, ?_, ?_, foldl_push_size _ l,
+    foldl_push_pnc _ l, ?_, fun j hj => foldl_push_get_lt _ l j hj⟩
+  · rw [parseAllURIParams_schedule flags hf o l bs hg (fun b hb => ⟨hl.sp_plOK b, ho b hb⟩),
+      spOneShotRun_stable (uriParamsParser flags) o (0, l) bs hne hg
+        (fun b hb s hv => by
+          rcases hp : parseAllURIParams b o l flags with ⟨o1, n1, e1, l1⟩
+          have hv' : e1 ≠ .moreBytes := by
+            unfold uriParamsParser at hv; simp only [hp] at hv; exact hv
+          have := parseAllURIParams_stable b s o l flags hf (hl.sp_plOK b) (hall b hb) hp hv'
+          unfold uriParamsParser
+          simp only [hp, this])]
+    unfold uriParamsParser
+    simp only [hone, Nat.zero_add]
+  · rw [foldl_push_n, List.length_map]
+  · rw [foldl_push_types, List.foldl_map]; rfl
+  · intro i tp hi hc
+    exact foldl_push_get _ l i _ (by rw [List.getElem?_map, hi]; rfl) hc
+
+/-- [EXPORT C17] **C17 for every chunk schedule, ParseAllURIHdrs** (separator '&') -/
+theorem uri_hdr_list_any_schedule (flags o o' : Nat) (e : Err) (tps : List PTokParam) (bs : List Buf)
+    (hne : bs ≠ []) (hg : Growing bs) (hf : hasFlag flags POptInputEndF = false)
+    (hfit : (bs.getLast hne).size ≤ 65535) (ho : ∀ b ∈ bs.head?, o ≤ b.size)
+    (H : GList (bs.getLast hne) (flags ||| POptParamAmpSepF ||| POptTokURIHdrF) o tps o' e) (l : URIHdrsLst)
+    (hl : l.Fresh) :
+    ∃ r, resumeRun (uriHdrsParser flags) o (0, l) bs = (o', e, (tps.length, r)) ∧
+      r.n = l.n + tps.length ∧ r.hdrs.size = l.hdrs.size ∧
+      (∀ i tp, tps[i]? = some tp → l.n + i < l.hdrs.size → r.hdrs[l.n + i]? = some tp) ∧
+      (∀ j, j < l.n → r.hdrs[j]? = l.hdrs[j]?) := by
+  have hall := spGrowing_head_le hg ho
+  have hone : parseAllURIHdrs (bs.getLast hne) o l flags = (o', tps.length, e, tps.foldl URIHdrsLst.push l) := by
+    unfold parseAllURIHdrs
+    rw [uriHdrsLoop_seq (H.hdrSeq hfit) l 0 hl, Nat.zero_add]
+  refine ⟨tps.foldl URIHdrsLst.push l, ?_, foldl_hpush_n _ l, foldl_hpush_size _ l,
+    fun i x hi hc => foldl_hpush_get _ l i x hi hc, fun j hj => foldl_hpush_get_lt _ l j hj⟩
+  rw [parseAllURIHdrs_schedule flags hf o l bs hg (fun b hb => ⟨hl.sp_hlClean, ho b hb⟩),
+    spOneShotRun_stable (uriHdrsParser flags) o (0, l) bs hne hg
+      (fun b hb s hv => by
+        rcases hp : parseAllURIHdrs b o l flags with ⟨o1, n1, e1, l1⟩
+        have hv' : e1 ≠ .moreBytes := by
+          unfold uriHdrsParser at hv; simp only [hp] at hv; exact hv
+        have := parseAllURIHdrs_stable b s o l flags hf hl.sp_hlClean (hall b hb) hp hv'
+        unfold uriHdrsParser
+        simp only [hp, this])]
+  unfold uriHdrsParser
+  simp only [hone, Nat.zero_add]
+
+/-! ### tests / non-vacuity (closed computations, `decide +kernel`) -/
+
+/-- test: an instance of `parseTokenParam_shift_new` by evaluation (junk `xyz`, text `a=b;c`) -/
+example : parseTokenParam (#[120, 121, 122] ++ "a=b;c".toUTF8.data) 3 {} 0 =
+    shRes 3 (shTp 3) (parseTokenParam "a=b;c".toUTF8.data 0 {} 0) := by decide +kernel
+/-- non-vacuity: the hypotheses of `parseTokenParam_shift_new` hold for it -/
+example : spGoodV (parseTokenParam "a=b;c".toUTF8.data 0 {} 0).2.1 = true := by decide +kernel
+/-- test: quoted value, white space, the space terminator, end-of-input option (flags 4 + 8) -/
+example : parseTokenParam (#[120, 121] ++ "a = \"q\" c".toUTF8.data) 2 {} 12 =
+    shRes 2 (shTp 2) (parseTokenParam "a = \"q\" c".toUTF8.data 0 {} 12) := by decide +kernel
+/-- non-vacuity of `parseTokenParam_shiftEntry` / a suspended object: `a=b ` with the space terminator is suspended
+    in state "value" at offset 3; the returned object is a legitimate argument there -/
+example : SpTpEntry 3 (parseTokenParam "a=b ".toUTF8.data 0 {} POptTokSpTermF).2.2 := by
+  have h := parseTokenParam_shiftEntry "a=b ".toUTF8.data 0 {} POptTokSpTermF (by decide) (by decide)
+    (SpTpEntry.new 0) (by decide +kernel)
+  have e : (parseTokenParam "a=b ".toUTF8.data 0 {} POptTokSpTermF).1 = 3 := by decide +kernel
+  rw [e] at h; exact h
+/-- test: the resumed call behind junk, from the translated suspended object -/
+example : parseTokenParam (#[120, 121, 122] ++ "a=b c".toUTF8.data) (3 + 3)
+      (shTp 3 (parseTokenParam "a=b ".toUTF8.data 0 {} POptTokSpTermF).2.2) POptTokSpTermF =
+    shRes 3 (shTp 3) (parseTokenParam "a=b c".toUTF8.data 3 (parseTokenParam "a=b ".toUTF8.data 0 {} POptTokSpTermF).2.2
+      POptTokSpTermF) := by decide +kernel
+/-- test: WHY the error state is compared up to `spTpNz`.  `a\x01` and `\x01` return the same object at offset 0 … -/
+example : (parseTokenParam #[97, 1] 0 {} 0).2.2 = (parseTokenParam #[1] 0 {} 0).2.2 := by decide +kernel
+/-- … but different ones behind `xyz` (name started at 3 and not extended / name never started) -/
+example : (parseTokenParam #[120, 121, 122, 97, 1] 3 {} 0).2.2.name = ⟨3, 0⟩ ∧
+    (parseTokenParam #[120, 121, 122, 1] 3 {} 0).2.2.name = ⟨0, 0⟩ := by decide +kernel
+/-- test: ParseAllURIParams behind junk, capacity 1, suspended in the third parameter (counts, verdict, the stored
+    slot, the element in progress) -/
+example :
+    (parseAllURIParams (#[120, 121] ++ "lr;transport=udp;x=1".toUTF8.data) 2 { params := Array.replicate 1 {} } 0).1 = 2 + 20 ∧
+    (parseAllURIParams (#[120, 121] ++ "lr;transport=udp;x=1".toUTF8.data) 2 { params := Array.replicate 1 {} } 0).2.1 = 2 ∧
+    (parseAllURIParams (#[120, 121] ++ "lr;transport=udp;x=1".toUTF8.data) 2 { params := Array.replicate 1 {} } 0).2.2.1 =
+      .moreBytes ∧
+    (parseAllURIParams (#[120, 121] ++ "lr;transport=udp;x=1".toUTF8.data) 2 { params := Array.replicate 1 {} } 0).2.2.2.params =
+      (shPl 2 (parseAllURIParams "lr;transport=udp;x=1".toUTF8.data 0 { params := Array.replicate 1 {} } 0).2.2.2).params ∧
+    (parseAllURIParams (#[120, 121] ++ "lr;transport=udp;x=1".toUTF8.data) 2 { params := Array.replicate 1 {} } 0).2.2.2.tmp =
+      (shPl 2 (parseAllURIParams "lr;transport=udp;x=1".toUTF8.data 0 { params := Array.replicate 1 {} } 0).2.2.2).tmp := by
+  decide +kernel
+/-- test: ParseAllURIHdrs behind junk -/
+example :
+    (parseAllURIHdrs (#[120] ++ "a=1&b=2&c".toUTF8.data) 1 { hdrs := Array.replicate 2 {} } 0).2.2.2.hdrs =
+      (shHl 1 (parseAllURIHdrs "a=1&b=2&c".toUTF8.data 0 { hdrs := Array.replicate 2 {} } 0).2.2.2).hdrs := by
+  decide +kernel
+
+/-- non-vacuity of `uri_param_list_any_schedule`: `a;?x` in URI-parameter mode (flags 64; the wrapper adds ';': 80),
+    delivered as `a`, `a;`, `a;?x`: one parameter, verdict OK at the terminator (offset 2), counted once -/
+example : ∃ r, resumeRun (uriParamsParser 64) 0 (0, { params := Array.replicate 4 {} })
+    ["a".toUTF8.data, "a;".toUTF8.data, "a;?x".toUTF8.data] = (2, .ok, (1, r)) ∧ r.n = 1 := by
+  have hsep : tpSep (64 ||| POptParamSemiSepF) = 59 := by decide
+  have hterm : tpTerm (64 ||| POptParamSemiSepF) = 63 := by decide
+  have H : GList "a;?x".toUTF8.data (64 ||| POptParamSemiSepF) 0
+      [{ name := ⟨0, 1⟩, all := ⟨0, 1⟩, state := .fin }] 2 .ok := by
+    refine GList.last 0 2 .ok _ ?_ (Or.inl rfl)
+    refine GParam.noValue 0 0 0 1 2 .ok .fin (Pad.nil 0) (Lws.nil 0) ?_ (by decide) ?_
+    · intro k h1 h2
+      have : k = 0 := by omega
+      subst this
+      exact ⟨97, by decide, by decide, by decide, by decide⟩
+    · exact Ending.sep 1 1 2 .ok .fin (Lws.nil 1) (by rw [hsep]; decide)
+        (AfterSep.term 2 2 2 (Pad.nil 2) (Lws.nil 2) (by rw [hterm]; decide) (by rw [hterm]; decide))
+  obtain ⟨r, h1, h2, _⟩ := uri_param_list_any_schedule 64 0 2 .ok _
+    ["a".toUTF8.data, "a;".toUTF8.data, "a;?x".toUTF8.data] (by simp)
+    ⟨⟨";".toUTF8.data, by decide⟩, ⟨"?x".toUTF8.data, by decide⟩, trivial⟩ (by decide) (by decide)
+    (fun b hb => by simp at hb; subst hb; decide) H { params := Array.replicate 4 {} }
+    (by
+      refine ⟨fun i x _ hx => ?_, rfl⟩
+      rw [Array.getElem?_replicate] at hx
+      split at hx
+      · cases hx; rfl
+      · cases hx)
+  exact ⟨r, h1, h2⟩
 
 end Sipsp
